@@ -587,7 +587,8 @@ class _BaseSolver:
     def check_valid(self, goal):
         owner = getattr(self, "owner", self)
         if owner.solver is None:
-            owner.solver = _solver(min(owner.timeout_ms, 5000))
+            owner.solver = _solver(min(owner.timeout_ms, 1500))
+            owner.solver.set("rlimit", 4000000)
             owner.solver.add(*owner.base)
             owner.solver.add(*core.list_axiom_instances(owner.base))
         s = owner.solver
@@ -776,6 +777,8 @@ def discharge(ob, timeout_ms=10000, rep=None):
         ob.seconds = time.time() - t0
         return ob
     s = _solver(timeout_ms if ob.kind != "cover" else min(timeout_ms, 8000))
+    if ob.kind == "cover":
+        s.set("rlimit", 30000000)  # the wall-clock timeout is not always honoured by the nonlinear engine
     s.add(*assumptions)
     goal = ob.goal
     if ob.kind != "cover":
